@@ -52,9 +52,10 @@ pub struct MergeSc {
 pub struct SocketSc {
     /// 0 or 1: which exchange channel of the `StreamBuilder` this socket forwards into
     pub exchange: usize,
-    /// per connection: (initialisation takes ms, items as (delay, id), ends ms after the last item;
-    /// the last connection of a socket stays open)
-    pub conns: Vec<(u64, Vec<(u64, u32)>, u64)>,
+    /// per connection: (initialisation takes ms, items as (delay, id), ends ms after the last item,
+    /// number of failed initialisation attempts before the one that succeeds - never for the first
+    /// connection); the last connection of a socket stays open
+    pub conns: Vec<(u64, Vec<(u64, u32)>, u64, u8)>,
 }
 
 #[derive(Clone, Debug, Serialize, Deserialize)]
@@ -231,7 +232,7 @@ impl Sim for SimD1 {
                     .map(|_| {
                         let m = rng.usize(4);
                         let items = (0..m).map(|_| (*rng.pick(&[0u64, 0, 1, 3, 20]), val())).collect();
-                        (*rng.pick(&[0u64, 0, 1, 30]), items, *rng.pick(&[0u64, 0, 0, 2, 50]))
+                        (*rng.pick(&[0u64, 0, 1, 30]), items, *rng.pick(&[0u64, 0, 0, 2, 50]), if rng.chance(1, 4) { 1 + rng.below(3) as u8 } else { 0 })
                     })
                     .collect();
                 sockets.push(SocketSc { exchange: rng.usize(2), conns });
@@ -342,7 +343,14 @@ impl Sim for SimD1 {
                     let mut items = Vec::new();
                     let mut ends = Vec::new();
                     let n = s.conns.len();
-                    for (c, (init_ms, its, end_after)) in s.conns.iter().enumerate() {
+                    for (c, (init_ms, its, end_after, fails)) in s.conns.iter().enumerate() {
+                        // failed re-initialisations first: each fails at once and is followed by this
+                        // socket's own backoff (initial, then multiplied up to the maximum)
+                        let mut backoff = sc.initial_ms;
+                        for _ in 0..(if c == 0 { 0 } else { *fails }) {
+                            t += backoff;
+                            backoff = backoff.saturating_mul(sc.multiplier as u64).min(sc.max_ms);
+                        }
                         t += init_ms;
                         for (d, id) in its {
                             t += d;
@@ -359,6 +367,9 @@ impl Sim for SimD1 {
             // the builders hand out their streams only after every socket's first initialisation:
             // whatever a faster socket produced earlier waits in its exchange channel until then
             let t0 = sc.sockets.iter().filter_map(|s| s.conns.first().map(|c| c.0)).max().unwrap_or(0);
+            if sc.sockets.iter().any(|s| s.conns.iter().skip(1).any(|c| c.3 > 0)) {
+                stats.fault("init_failure");
+            }
             let horizon = exp.iter().flat_map(|e| e.items.iter().map(|x| x.0).chain(e.ends.iter().copied())).max().unwrap_or(0) + 1_000;
             let policy = ReconnectionBackoffPolicy { backoff_ms_initial: sc.initial_ms, backoff_multiplier: sc.multiplier, backoff_ms_max: sc.max_ms };
             let sockets = sc.sockets.clone();
@@ -369,7 +380,14 @@ impl Sim for SimD1 {
                     let ex = EXB[s.exchange.min(1)];
                     let exchange_tx = builder.channels.entry(ex).or_insert_with(Channel::<OutB>::new).tx.clone();
                     let n = s.conns.len();
-                    let queue = Arc::new(Mutex::new(s.conns.into_iter().enumerate().collect::<std::collections::VecDeque<_>>()));
+                    let mut script: std::collections::VecDeque<(usize, Option<(u64, Vec<(u64, u32)>, u64)>)> = std::collections::VecDeque::new();
+                    for (c, (init_ms, items, end_after, fails)) in s.conns.into_iter().enumerate() {
+                        for _ in 0..(if c == 0 { 0 } else { fails }) {
+                            script.push_back((c, None));
+                        }
+                        script.push_back((c, Some((init_ms, items, end_after))));
+                    }
+                    let queue = Arc::new(Mutex::new(script));
                     let policy = policy.clone();
                     // what StreamBuilder::subscribe queues, with the socket script as initialiser
                     builder.futures.push(Box::pin(async move {
@@ -377,8 +395,11 @@ impl Sim for SimD1 {
                         let init = move || {
                             let next = queue.lock().unwrap().pop_front();
                             async move {
-                                let Some((c, (init_ms, items, end_after))) = next else {
+                                let Some((c, attempt)) = next else {
                                     return std::future::pending::<Result<futures::stream::BoxStream<'static, ItemB>, DataError>>().await;
+                                };
+                                let Some((init_ms, items, end_after)) = attempt else {
+                                    return Err(DataError::Socket("sim: re-connect failed".into()));
                                 };
                                 if init_ms > 0 {
                                     tokio::time::sleep(Duration::from_millis(init_ms)).await;
